@@ -318,6 +318,14 @@ def main(chk):
     c01 = importlib.util.module_from_spec(spec)
     spec.loader.exec_module(c01)
     c01.rule_cache(chk)
+    # every algorithm sees the same particles and the same cells: all particles are binned, and an out-of-range cell index is never aliased (rules shared with C01)
+    c01.rule_bins_all(chk)
+    c01.rule_valid_cell(chk)
+    # the order in which a destination's sources are visited (= the floating-point summation order) depends on the user's listing only (rule shared with C03)
+    spec3 = importlib.util.spec_from_file_location('c03mod', os.path.join(os.path.dirname(os.path.abspath(__file__)), 'c03.py'))
+    c03 = importlib.util.module_from_spec(spec3)
+    spec3.loader.exec_module(c03)
+    c03.rule_regroup(chk)
     # informational: classes not selectable from the command line
     for cname, (rel, cls) in sorted(classes.items()):
         if cname in selectable or cname in ('NNPS', 'NNPSBase') or not cname.endswith('NNPS'):
